@@ -30,7 +30,7 @@ func propC01(c *Ctx) {
 	insBlocks := ins.Call.Args[3]
 	c.Check("R1.1", "Converge/insert-gets-loaded-slice", ins.Pos(), loaded != nil && stripConv(m.reg.Resolve(stripConv(insBlocks))) == loaded,
 		"the blocks argument of insert is result #0 of load")
-	checkPositionFromLastInserted(c, "R1.1", upd, insBlocks)
+	checkPositionFromLastInserted(c, "R1.1", upd, m.reg.Resolve(insBlocks))
 	c.Check("R1.1", "Converge/update-after-insert", upd.Pos(), m.dom(ins, upd) && m.dom(ld, ins), "load → insert → update execute in this order on every path")
 
 	c.Rule("R1.2", "the loaded range starts at recorded position + 1 and is linked against the hash recorded with that position", 2)
